@@ -45,10 +45,12 @@ theorem stepTail_ok {Y P Q : A4 V} {m : Nat} (hm : m ≤ 4) {s : Nat} (hs : s < 
 /-- **no failure under the invariant**: from a state satisfying the invariant, with genuine
 points of `A`, `B` as arguments, `_distance_loop` returns normally whenever the solver does
 (no `IndexError`, and the assertion `prev_v_len_sq >= v_len_sq` cannot fire) -/
-theorem step_ok {A B : V → Prop} {solve : Solver ℝ} (hsolve : SolverSpec solve)
-    (htotal : ∀ Y n prev, 1 ≤ n → n ≤ 4 → ∃ r, solve Y n prev = .ok r)
+theorem step_ok {A B : V → Prop} {good : A4 V → Nat → Prop} {solve : Solver ℝ}
+    (hsolve : SolverSpecOn good solve)
+    (htotal : ∀ Y n prev, 1 ≤ n → n ≤ 4 → good Y n → ∃ r, solve Y n prev = .ok r)
     {st : State ℝ} {p q : V} {tolSq maxD : ℝ}
-    (hst : Stored A B st 3) (hrun : Running tolSq st (p - q)) :
+    (hst : Stored A B st 3) (hrun : Running tolSq st (p - q))
+    (hgood : ∀ Y1, st.Y.set st.nPoints (p - q) = .ok Y1 → good Y1 (st.nPoints + 1)) :
     ∃ out, distanceLoopStep solve p q st tolSq maxD = .ok out := by
   unfold distanceLoopStep
   simp only
@@ -58,11 +60,11 @@ theorem step_ok {A B : V → Prop} {solve : Solver ℝ} (hsolve : SolverSpec sol
     obtain ⟨Y1, hY⟩ := set_ok st.Y st.nPoints (p - q) hn3
     obtain ⟨P1, hP⟩ := set_ok st.P st.nPoints p hn3
     obtain ⟨Q1, hQ⟩ := set_ok st.Q st.nPoints q hn3
-    obtain ⟨r, hr⟩ := htotal Y1 (st.nPoints + 1) st.prevVLenSq (by omega) (by omega)
+    obtain ⟨r, hr⟩ := htotal Y1 (st.nPoints + 1) st.prevVLenSq (by omega) (by omega) (hgood Y1 hY)
     rw [hY, hP, hQ]
     simp only [hr]
     obtain ⟨hvl, hsucc, hset, hmin, hrel, _⟩ :=
-      hsolve.spec Y1 (st.nPoints + 1) st.prevVLenSq r (by omega) (by omega) hr
+      hsolve.spec Y1 (st.nPoints + 1) st.prevVLenSq r (by omega) (by omega) (hgood Y1 hY) hr
     have hset16 : r.set < 16 := lt_of_lt_of_le hset (two_pow_le_16 (by omega))
     obtain ⟨_, eY1⟩ := pre_set st.Y Y1 st.nPoints _ hY
     have eY1n := pre_set_same st.Y Y1 st.nPoints _ hY
@@ -87,18 +89,20 @@ theorem step_ok {A B : V → Prop} {solve : Solver ℝ} (hsolve : SolverSpec sol
         nlinarith [EPS_pos]
 
 /-- the loop terminates from a running state once `(1−ε)ᵏ·|v|² ≤ tol²` for the fuel `k + 1` -/
-theorem loop_terminates_cur {A B : V → Prop} {solve : Solver ℝ} (hsolve : SolverSpec solve)
-    (htotal : ∀ Y n prev, 1 ≤ n → n ≤ 4 → ∃ r, solve Y n prev = .ok r)
+theorem loop_terminates_cur {A B : V → Prop} {good : A4 V → Nat → Prop} {solve : Solver ℝ}
+    (hsolve : SolverSpecOn good solve)
+    (htotal : ∀ Y n prev, 1 ≤ n → n ≤ 4 → good Y n → ∃ r, solve Y n prev = .ok r)
     {sA sB : V → V} (hsA : ∀ d, d ≠ zeroV → IsSupport A d (sA d))
     (hsB : ∀ d, d ≠ zeroV → IsSupport B d (sB d)) {tolSq maxD : ℝ} (htol : 0 ≤ tolSq) :
     ∀ (k fuel it : Nat) (st : State ℝ) (x : V), Stored A B st 3 → Cur tolSq st x →
+      VisitedGood good solve sA sB tolSq maxD st →
       (1 - EPS) ^ k * st.vLenSq ≤ tolSq → k + 1 ≤ fuel →
       ∃ res, gjkLoop solve sA sB tolSq maxD fuel it st = .ok res
-  | 0, _, _, st, x, _, hcur, hk, _ => by
+  | 0, _, _, st, x, _, hcur, _, hk, _ => by
     obtain ⟨_, _, _, _, htl, _⟩ := hcur
     simp at hk; linarith
-  | k + 1, 0, _, _, _, _, _, _, hf => by omega
-  | k + 1, fuel + 1, it, st, x, hst, hcur, hk, hf => by
+  | k + 1, 0, _, _, _, _, _, _, _, hf => by omega
+  | k + 1, fuel + 1, it, st, x, hst, hcur, hvis, hk, hf => by
     have hsd : st.sd ≠ zeroV := by
       obtain ⟨hsdx, _, hv, _, htl, _⟩ := hcur
       apply ne_zero_of_normSq_pos
@@ -109,18 +113,18 @@ theorem loop_terminates_cur {A B : V → Prop} {solve : Solver ℝ} (hsolve : So
       simp at hx hy hz
       apply V3.ext' <;> simp <;> linarith
     have hrun : Running tolSq st (sA st.sd - sB (-st.sd)) := Or.inl ⟨x, hcur⟩
-    obtain ⟨out, hout⟩ := step_ok (maxD := maxD) hsolve htotal hst hrun
+    obtain ⟨out, hout⟩ := step_ok (maxD := maxD) hsolve htotal hst hrun hvis.here
     unfold gjkLoop
     simp only [bind, Except.bind, hout]
     split
     · rename_i hunk
-      obtain ⟨x', v', hinv⟩ := step_inv hsolve htol hst hrun (hsA _ hsd).1 (hsB _ hnegsd).1 hout
-        (by rw [hunk]; simp)
+      obtain ⟨x', v', hinv⟩ := step_inv hsolve htol hst hrun (hsA _ hsd).1 (hsB _ hnegsd).1
+        hvis.here hout (by rw [hunk]; simp)
       rcases hinv.exits with ⟨hg, _⟩ | ⟨hg, _⟩ | ⟨_, hsto, hcur', hdec⟩
       · rw [hunk] at hg; exact GjkState.noConfusion hg
       · rw [hunk] at hg; exact GjkState.noConfusion hg
-      · apply loop_terminates_cur hsolve htotal hsA hsB htol k fuel (it + 1) out.st x' hsto hcur' _
-          (by omega)
+      · apply loop_terminates_cur hsolve htotal hsA hsB htol k fuel (it + 1) out.st x' hsto hcur'
+          (hvis.next hout hunk) _ (by omega)
         obtain ⟨_, _, hv, hpv, _, _⟩ := hcur
         have hpow : 0 ≤ (1 - EPS : ℝ) ^ k := pow_nonneg (by linarith [EPS_lt_one]) k
         calc (1 - EPS) ^ k * out.st.vLenSq ≤ (1 - EPS) ^ k * ((1 - EPS) * st.prevVLenSq) :=
@@ -133,22 +137,24 @@ theorem loop_terminates_cur {A B : V → Prop} {solve : Solver ℝ} (hsolve : So
 mappings satisfying theirs, there is a number of iterations `N` (depending on the two sets only
 through the first closest point) such that the `while True` loop of `gjk_distance_jolt` returns
 normally for every fuel `≥ N`: the fuel-exhaustion outcome is unreachable. -/
-theorem loop_terminates {A B : V → Prop} {solve : Solver ℝ} (hsolve : SolverSpec solve)
-    (htotal : ∀ Y n prev, 1 ≤ n → n ≤ 4 → ∃ r, solve Y n prev = .ok r)
+theorem loop_terminates {A B : V → Prop} {good : A4 V → Nat → Prop} {solve : Solver ℝ}
+    (hsolve : SolverSpecOn good solve)
+    (htotal : ∀ Y n prev, 1 ≤ n → n ≤ 4 → good Y n → ∃ r, solve Y n prev = .ok r)
     {sA sB : V → V} (hsA : ∀ d, d ≠ zeroV → IsSupport A d (sA d))
     (hsB : ∀ d, d ≠ zeroV → IsSupport B d (sB d))
     (hfin : V3.normSq (sA e1 - sB (-e1)) < (1 - EPS) * MAXF)
-    {tolSq maxD : ℝ} (htol : 0 < tolSq) (y0 : A4 V) :
+    {tolSq maxD : ℝ} (htol : 0 < tolSq) (y0 : A4 V)
+    (hvis : VisitedGood good solve sA sB tolSq maxD (gjkInit y0)) :
     ∃ N, ∀ fuel, N ≤ fuel → ∃ res, gjkLoop solve sA sB tolSq maxD fuel 0 (gjkInit y0) = .ok res := by
   have hst := stored_init A B y0
   have hrun : Running tolSq (gjkInit y0) (sA (gjkInit y0).sd - sB (-(gjkInit y0).sd)) :=
     Or.inr ⟨isInit_init y0, hfin⟩
   have hneg : -(gjkInit y0 : State ℝ).sd ≠ zeroV := by
     intro h0; have := congrArg V3.x h0; simp [gjkInit] at this
-  obtain ⟨out, hout⟩ := step_ok (maxD := maxD) hsolve htotal hst hrun
+  obtain ⟨out, hout⟩ := step_ok (maxD := maxD) hsolve htotal hst hrun hvis.here
   by_cases hunk : out.gs = .unknown
   · obtain ⟨x', v', hinv⟩ := step_inv hsolve htol.le hst hrun (hsA _ e1_ne_zero).1 (hsB _ hneg).1
-      hout (by rw [hunk]; simp)
+      hvis.here hout (by rw [hunk]; simp)
     rcases hinv.exits with ⟨hg, _⟩ | ⟨hg, _⟩ | ⟨_, hsto, hcur', _⟩
     · rw [hunk] at hg; exact GjkState.noConfusion hg
     · rw [hunk] at hg; exact GjkState.noConfusion hg
@@ -160,7 +166,8 @@ theorem loop_terminates {A B : V → Prop} {solve : Solver ℝ} (hsolve : Solver
       obtain ⟨f, rfl⟩ : ∃ f, fuel = f + 1 := ⟨fuel - 1, by omega⟩
       unfold gjkLoop
       simp only [bind, Except.bind, hout, hunk, if_true]
-      apply loop_terminates_cur hsolve htotal hsA hsB htol.le k f 1 out.st x' hsto hcur' _ (by omega)
+      apply loop_terminates_cur hsolve htotal hsA hsB htol.le k f 1 out.st x' hsto hcur'
+        (hvis.next hout hunk) _ (by omega)
       have := (lt_div_iff₀ hvpos).mp hk
       exact this.le
   · refine ⟨1, fun fuel hf => ?_⟩
